@@ -62,6 +62,20 @@ def run(ctx):
             v["what"] = "%s: document %s via %s cut %s" % (v["clause"], r.get("i"), r.get("via"), r.get("cut"))
             v["row"] = {k: r[k] for k in ("i", "via", "cut", "flags") if k in r}
     ctx.violations += bad
+    # the Content-Disposition value in depth: spec/MpartCD.tla (transcribed parameter-list parser, indicators), rows from real parts
+    cmc = vlib.tlc_or_die(ctx, "MpartCDMC", "MpartCDMC.cfg", workers=vlib.NCPU, timeout=1800, xmx="8g")
+    for inv in cmc.violated:
+        ctx.violations.append({"clause": "Model:" + inv, "what": "MpartCD reference violates its own meta-property: " + cmc.out[-1200:], "sites": []})
+    ca = 3 if q else 4
+    cshards = [["exh", ca, i, n] for i in range(n)] + [["rand", ctx.seed * 23 + i, 1500 if q else 20000] for i in range(4)]
+    ct, cd, cbad, _ = vlib.pattern_f(ctx, "san", "fn_mpcd", cshards, "MpartCDRows", "MpartCDRows.cfg", xmx="5g")
+    for v in cbad:
+        r = v.get("row") or {}
+        if isinstance(r, dict) and "hv" in r:
+            v["what"] = "%s: Content-Disposition %r -> name %r file %r flags %s" % (v["clause"], bytes(r["hv"]), r.get("name"), r.get("file"), r.get("flags"))
+            v["row"] = {k: r[k] for k in ("hv", "flags") if k in r}
+    ctx.violations += cbad
+    total += ct; distinct += cd
     vac = None if len(good) >= n_docs * 0.5 and total > len(good) * 20 else "only %d well-formed documents / %d rows" % (len(good), total)
     vlib.finish(ctx, "model_checking", {
         "states": mc.distinct, "transitions": mc.generated, "traces_validated_against_impl": total,
@@ -69,6 +83,9 @@ def run(ctx):
         "rule": "documents = Multipart!Doc(i) for %d consecutive indices (0..3 parts; names incl. escaped quote / backslash / empty; with and without file name and content type; folded Content-Disposition; data of 0..3 atoms from a "
                 "14-atom near-boundary alphabet incl. CR, LF, dashes, delimiter prefixes, boundary text not at a line start, NUL, CRLFCRLF; optional preamble / epilogue; CRLF or LF structure; LWS after delimiters), minus draws whose data "
                 "would contain a real delimiter; chunkings: whole, EVERY single cut, one byte per call, 3 random multi-cuts; through the parser directly and (a third of the cuts) a full POST; distinct = (document, route, chunking)" % n_docs,
+        "content_disposition_rows": ct,
+        "content_disposition_rule": "5 prefixes x every sequence of <= %d atoms from {; SP name filename nam = quote escaped-quote escaped-backslash backslash a 'x y' TAB} + random lists of whole parameters: "
+                                    "name, file name, CD_SYNTAX_INVALID / CD_PARAM_REPEATED / CD_PARAM_UNKNOWN = spec/MpartCD.tla" % ca,
         "samples": [good[1], {"rendered": render(good[1]["d"]).decode("latin1")}],
         "exhaustive": True, "exhaustive_space": "every single cut of every generated document (direct route)",
         "model": "MultipartMC: data-mode matcher with cr_aside / boundary candidate (shape of htp_mpartp_parse STATE_DATA) vs line-oriented reference for every content over {CR LF x delimiter} and every chunking",
